@@ -2,12 +2,16 @@
 
 (MC)  ApplyOrder.tla: the executor as a queue satisfies InOrderOnce exhaustively (the task-per-entry mechanism
       of the pinned code violates it: MCApplyOrder_asis.cfg, kept as the non-vacuity probe).
+      With one clean restart: entries marked executed are not handed to the executor again (MCApplyOrder_nomark.cfg -
+      a failed action left unmarked - violates InOrderOnce: second probe).
 (TV)  a real agdb_server process (single node: every action goes through the cluster log of one) built with hook H5,
       which appends `commit i / start i / end i` to an event file and delays the start of entry i by
       delay * (3 - i mod 4) ms. Several client threads issue cluster actions concurrently (database writes, user and
       role changes), so several entries are committed while earlier executions are still delayed.
       ApplyTrace.tla decides the event file: entries committed in log order; an execution starts only for the oldest
       pending entry and only when no other execution is running; at the end every committed entry was executed once.
+      Some actions fail (a batch with a failing query); after all requests are answered the server is stopped and
+      started again on the same data and takes a few more actions: nothing may be executed a second time.
 """
 import json
 import os
@@ -50,7 +54,10 @@ def one_run(binary, work, seed, clients, per_client, delay):
             for k in range(per_client):
                 x = r.random()
                 u = r.choice(serverdrv.USERS)
-                if x < 0.7:
+                if x < 0.15:
+                    # a committed action whose execution FAILS (the batch is rolled back; the entry still counts as executed)
+                    s, _ = srv.call("POST", "/db/alice/d1/exec_mut", toks[u], [serverdrv.q_insert(1), serverdrv.Q["fail_mut"]])
+                elif x < 0.7:
                     s, _ = srv.call("POST", "/db/alice/d1/exec_mut", toks[u], [serverdrv.q_insert(1)])
                 elif x < 0.85:
                     s, _ = srv.call("PUT", "/db/alice/d1/user/bob/add", toks["alice"], query={"db_role": r.choice(["read", "write"])})
@@ -64,6 +71,20 @@ def one_run(binary, work, seed, clients, per_client, delay):
             t.start()
         for t in threads:
             t.join()
+        time.sleep(0.5)
+        # every request has been answered (an entry is marked executed before its request is answered): stop the server
+        # and start it again on the same data - nothing may be executed a second time - then a few more actions
+        srv.stop()
+        with open(evlog, "a") as f:
+            f.write("restart 0\n")
+        srv.restart()
+        s, b = srv.call("POST", "/user/login", None, {"username": "alice", "password": serverdrv.PW["alice"]})
+        if s == 200:
+            t2 = json.loads(b)
+            for _ in range(3):
+                s, _ = srv.call("POST", "/db/alice/d1/exec_mut", t2, [serverdrv.q_insert(1)])
+                if 200 <= s < 300:
+                    ok[0] += 1
         time.sleep(0.5)
     finally:
         srv.stop()
@@ -105,7 +126,7 @@ def run(tier):
     work = vlib.scratch("c31")
     try:
         runs = []
-        for cfg in ("MCApplyOrder.cfg", "MCApplyOrder_asis.cfg"):
+        for cfg in ("MCApplyOrder.cfg", "MCApplyOrder_asis.cfg", "MCApplyOrder_nomark.cfg"):
             r = vlib.tlc("ApplyOrder", cfg, workers=4, timeout=300, tag="c31mc")
             vlib.require_mc_ok(r, cfg)
             runs.append(r.summary())
@@ -114,6 +135,8 @@ def run(tier):
             raise vlib.ToolError("ApplyOrder with the queue executor violates InOrderOnce (specification error)")
         if not runs[1]["violated"]:
             raise vlib.ToolError("non-vacuity probe failed: the task-per-entry executor does not violate InOrderOnce in the model")
+        if not runs[2]["violated"]:
+            raise vlib.ToolError("non-vacuity probe failed: leaving failed actions unmarked does not violate InOrderOnce across a restart")
         binary = vlib.build_server()
         n = 10 if thorough else 3
         events = []
